@@ -111,6 +111,12 @@ def run(ctx):
         acc = frozenset({(lenG, -1), (m.threshold, 1)})
         exact = all(any(co == acc and c == 0 for _f, (co, c) in le_facts(p.facts)) for p in m.returns) and bool(m.returns)
         ctx.ob("R3", "threshold-boundary", fn_site(eng, m.sm).loc(), "the accept gate is %s" % ("exactly len(counted) >= threshold: k valid signers verify for all t <= k and for no t > k" if exact else "not exactly len(counted) >= threshold"), exact)
+    # "signing in any order ... verifies for every threshold up to the number of signers; changed
+    # payload makes earlier signatures stop counting (not: abort)": the per-entry decisions are
+    # independent of each other and of the map's order (C06-R3, re-evaluated here)
+    from .c06 import entries_independent
+
+    entries_independent(ctx.sub("DEP-C06"), "R3")
 
 
 def _rooted(t, root):
